@@ -51,9 +51,10 @@ CONTENT_CLASSES = [
 class Universe:
     """Model ids <-> concrete data.  files: ["f1",..]; dirs: {"d1": ["f1","f2"], ...}."""
 
-    def __init__(self, files, dirs: dict[str, list[str]], seed=0, allow_empty=True):
+    def __init__(self, files, dirs: dict[str, list[str]], seed=0, allow_empty=True, pads=0):
         rng = random.Random(seed)
         self.files = list(files)
+        self.pads = [f"p{i + 1}" for i in range(pads)]
         self.dirs = {d: list(fs) for d, fs in dirs.items()}
         self.content: dict[str, bytes] = {}
         used = set()
@@ -65,6 +66,17 @@ class Universe:
                     break
             used.add(c)
             self.content[f] = c
+        # padding objects whose md5 starts with "00": they make the base store estimate a large
+        # remote, which switches oids_exist() to its per-object strategy for small queries
+        k = 0
+        for pname in self.pads:
+            while True:
+                c = f"pad-{seed}-{k}".encode()
+                k += 1
+                if md5(c).startswith("00"):
+                    break
+            self.content[pname] = c
+        self.files = self.files + self.pads
         self.oid = {f: md5(self.content[f]) for f in self.files}
         # relative paths inside each directory (a file listed by two dirs gets different paths)
         self.relpaths: dict[str, dict[str, str]] = {}
